@@ -2,10 +2,12 @@
 //
 //   case <id> <mode> K=<all|none|k1,k2,..> [H=<host flags>]
 //     host flags (what the host puts into the archive besides director.Archive; default lrq):
-//       l = ArchiveObject(level)   q = the event queue
+//       l = ArchiveObject(level) and ArchiveObject(game)   q = the event queue
 //       r = the entities named by E ops are archived, deleted at the reset and re-created from the
 //           archive (ReadObject), and the target list is archived
 //       e = instead: the entities survive the reset and are archived in place (ArchiveObject)
+//       n = after the reset the engine is destroyed and the archive is loaded into a NEW engine
+//           (a restarted host); the injected clock goes on
 //     mode M: threads are structured programs (the alphabet of coq/C09/Model.v); every op is
 //             printed as `m <obs>` in the canonical text of ocaml/C09_driver.ml
 //     mode F: free script text (waittill/notify, waitthread, group/level variables, entities ..):
@@ -273,10 +275,11 @@ static Layout layoutOf(const std::string& src)
 }
 
 // ------------------------------------------------------------------ one run
-struct Options { bool level = true, ents = false, queue = true, recreate = true; };
+struct Options { bool level = true, ents = false, queue = true, recreate = true, fresh = false; };
 
 struct Run {
-    vh::Engine e;
+    std::unique_ptr<vh::Engine> ep{new vh::Engine()};
+    std::string warnAcc, errAcc;      // diagnostics of engines that were replaced
     std::map<std::string, Layout> layouts;
     std::vector<std::string> entNames;
     int nextProg = 0;
@@ -291,10 +294,10 @@ struct Run {
     std::vector<SimpleEntity*> entities()
     {
         std::vector<SimpleEntity*> r;
-        StringDictionary& dict = e.director().GetDictionary();
+        StringDictionary& dict = ep->director().GetDictionary();
         for (auto& n : entNames) {
             const_str cs = dict.Get(n.c_str());
-            Listener* l = cs ? e.ctx->GetTargetList().GetTarget(cs) : nullptr;
+            Listener* l = cs ? ep->ctx->GetTargetList().GetTarget(cs) : nullptr;
             r.push_back(dynamic_cast<SimpleEntity*>(l));
         }
         return r;
@@ -315,16 +318,16 @@ struct Run {
                     Class* c = arc.ReadObject();
                     SimpleEntity* se = dynamic_cast<SimpleEntity*>(c);
                     es.push_back(se);
-                    if (c) e.ctx->GetTrackedInstances().Add(c);
+                    if (c) ep->ctx->GetTrackedInstances().Add(c);
                 }
             } else for (SimpleEntity* se : es) arc.ArchiveObject(*se);
-            e.ctx->GetTargetList().Archive(arc);
+            ep->ctx->GetTargetList().Archive(arc);
         } else if (opt.ents) {
             for (SimpleEntity* se : es) if (se) arc.ArchiveObject(*se);
         }
-        if (opt.level) arc.ArchiveObject(*e.ctx->GetLevel());
-        e.director().Archive(arc);
-        if (opt.queue) e.ctx->GetEventQueue().Archive(arc);
+        if (opt.level) { arc.ArchiveObject(*ep->ctx->GetLevel()); arc.ArchiveObject(*ep->ctx->GetGame()); }
+        ep->director().Archive(arc);
+        if (opt.queue) ep->ctx->GetEventQueue().Archive(arc);
     }
 
     std::string saveResetLoad()
@@ -338,16 +341,54 @@ struct Run {
         catch (std::exception& ex) { return std::string("save-exception:") + esc(ex.what()); }
         try {
             if (opt.recreate) { for (SimpleEntity* se : es) delete se; es.clear(); }
-            e.director().Reset();
+            ep->director().Reset();
         } catch (std::exception& ex) { return std::string("reset-exception:") + esc(ex.what()); }
-        if (opt.level && e.ctx->GetLevel()->vars) { e.ctx->GetLevel()->ClearVars(); }
+        if (opt.level && ep->ctx->GetLevel()->vars) { ep->ctx->GetLevel()->ClearVars(); }
+        if (opt.level && ep->ctx->GetGame()->vars) { ep->ctx->GetGame()->ClearVars(); }
+        if (opt.fresh) {
+            // host flag n: the archive is loaded into a NEW engine (a restarted host); the clock goes on
+            const int64_t clk = vh::g_clock;
+            std::map<std::string, std::string> files = ep->files.files;
+            warnAcc += ep->io.warn.str(); errAcc += ep->io.err.str();
+            std::string pendingOut = ep->io.out.str();
+            ep.reset();
+            ep.reset(new vh::Engine());
+            vh::g_clock = clk;
+            ep->ctx->GetTimeManagerInternal().Reset();      // the new engine starts NOW, not at clock 1000
+            ep->files.files = files;
+            ep->io.out << pendingOut;
+        }
         const std::string bytes = ss.str();
         imemstream is(bytes.data(), bytes.size());
         try {
             { Archiver arc = Archiver::CreateRead(is, info()); archiveHost(arc, es); }
         } catch (ArchiveErrors::Base& ex) { return "load-archive-error"; }
         catch (std::exception& ex) { return std::string("load-exception:") + esc(ex.what()); }
+        lastStats = stats();
         return dump();
+    }
+
+    std::string lastStats;
+    // shape of the state that was just loaded (coverage evidence)
+    std::string stats()
+    {
+        int ni = 0, nt = 0, nw = 0, ntm = 0, multi = 0;
+        ScriptMaster& d = ep->director();
+        for (ScriptClass* c = d.headScript; c; c = c->GetNext()) {
+            ++ni;
+            int k = 0;
+            for (ScriptVM* vm = c->FirstThread(); vm; vm = c->NextThread(vm)) {
+                ++nt; ++k;
+                ScriptThread* t = vm->GetScriptThread();
+                if (t->m_ThreadState == threadState_e::Waiting) ++nw;
+                else if (t->m_ThreadState == threadState_e::Timing) ++ntm;
+            }
+            if (k > 1) ++multi;
+        }
+        char b[160];
+        std::snprintf(b, sizeof b, "inst=%d thr=%d waiting=%d timing=%d multi=%d events=%zu", ni, nt, nw, ntm, multi,
+                      (size_t)ep->ctx->GetEventQueue().GetNumPendingEvents());
+        return b;
     }
 
     // canonical dump of the engine state: instances -> threads -> (state, position, locals); timer
@@ -356,7 +397,7 @@ struct Run {
         std::string s = "L";
         Numbering num;
         std::map<const void*, std::string> tname;
-        ScriptMaster& d = e.director();
+        ScriptMaster& d = ep->director();
         StringDictionary& dict = d.GetDictionary();
         int ii = 0;
         for (ScriptClass* c = d.headScript; c; c = c->GetNext()) {
@@ -399,23 +440,27 @@ struct Run {
     {
         std::string d;
         size_t n = 0;
-        for (const std::string& l : e.takeOutput()) { if (n++) d += ","; d += esc(l); }
+        for (const std::string& l : ep->takeOutput()) { if (n++) d += ","; d += esc(l); }
         if (!n) d = "-";
         char b[64];
-        std::snprintf(b, sizeof b, " idle=%d waiting=%d", e.ctx->IsIdle() ? 1 : 0, e.director().GetTimerList().HasAnyElement() ? 1 : 0);
+        std::snprintf(b, sizeof b, " idle=%d waiting=%d", ep->ctx->IsIdle() ? 1 : 0, ep->director().GetTimerList().HasAnyElement() ? 1 : 0);
         return d + b;
     }
 
     std::string finalObs()
     {
         Numbering num;
-        std::string s = "fin level=" + fmtVars(e.ctx->GetLevel(), num);
-        std::string w = e.io.warn.str();
+        std::string s = "fin level=" + fmtVars(ep->ctx->GetLevel(), num) + " game=" + fmtVars(ep->ctx->GetGame(), num);
+        {
+            std::vector<SimpleEntity*> es = entities();
+            for (size_t i = 0; i < es.size(); ++i) s += " " + entNames[i] + "=" + (es[i] ? fmtVars(es[i], num) : std::string("gone"));
+        }
+        std::string w = warnAcc + ep->io.warn.str();
         // script diagnostics are observable behaviour too (count only: the text carries addresses)
         size_t n = 0, p = 0;
         while ((p = w.find("Script Warning", p)) != std::string::npos) { ++n; p += 5; }
         size_t ne = 0; p = 0;
-        std::string er = e.io.err.str();
+        std::string er = errAcc + ep->io.err.str();
         while ((p = er.find('\n', p)) != std::string::npos) { ++ne; ++p; }
         return s + " warnings=" + std::to_string(n) + " errlines=" + std::to_string(ne);
     }
@@ -434,8 +479,8 @@ struct Run {
                     const std::string src = programText(rest);
                     const std::string name = "p" + std::to_string(nextProg++);
                     layouts[name] = layoutOf(src);
-                    const ProgramScript* scr = e.compile(name, src);
-                    if (scr) e.director().ExecuteThread(scr);
+                    const ProgramScript* scr = ep->compile(name, src);
+                    if (scr) ep->director().ExecuteThread(scr);
                 } else if (c == "D") {
                     std::string name, text; is >> name; std::getline(is, text);
                     if (!text.empty() && text[0] == ' ') text.erase(0, 1);
@@ -445,13 +490,13 @@ struct Run {
                         else src.push_back(text[i]);
                     }
                     src.push_back('\n');
-                    e.compile(name, src);
+                    ep->compile(name, src);
                     obs.push_back("def");
                     continue;
                 } else if (c == "S") {
                     std::string name, label; is >> name; is >> label;
-                    const ProgramScript* scr = e.director().GetProgramScript(name.c_str());
-                    if (scr) { if (label.empty()) e.director().ExecuteThread(scr); else e.director().ExecuteThread(scr, StringResolvable(label.c_str())); }
+                    const ProgramScript* scr = ep->director().GetProgramScript(name.c_str());
+                    if (scr) { if (label.empty()) ep->director().ExecuteThread(scr); else ep->director().ExecuteThread(scr, StringResolvable(label.c_str())); }
                 } else if (c == "E") {
                     std::string n; while (is >> n) entNames.push_back(n);
                     obs.push_back("ents");
@@ -463,7 +508,7 @@ struct Run {
                         std::string r = saveResetLoad();
                         if (r[0] != 'L') { obs.push_back("X " + r); break; }     // the save/load itself failed
                     }
-                    e.ctx->Execute();
+                    ep->ctx->Execute();
                 } else if (c == "L") {
                     obs.push_back(saveResetLoad());
                     continue;
@@ -478,7 +523,7 @@ struct Run {
             obs.push_back(observe());
         }
         obs.push_back(finalObs());
-        try { e.director().Reset(); } catch (...) {}
+        try { ep->director().Reset(); } catch (...) {}
     }
 };
 
@@ -492,7 +537,7 @@ int main()
         hs >> mode;
         while (hs >> w) {
             if (w.rfind("K=", 0) == 0) kspec = w.substr(2);
-            else if (w.rfind("H=", 0) == 0) { std::string f = w.substr(2); opt.level = f.find('l') != std::string::npos; opt.ents = f.find('e') != std::string::npos; opt.queue = f.find('q') != std::string::npos; opt.recreate = f.find('r') != std::string::npos; }
+            else if (w.rfind("H=", 0) == 0) { std::string f = w.substr(2); opt.level = f.find('l') != std::string::npos; opt.ents = f.find('e') != std::string::npos; opt.queue = f.find('q') != std::string::npos; opt.recreate = f.find('r') != std::string::npos; opt.fresh = f.find('n') != std::string::npos; }
         }
         const bool modeM = mode == "M";
         std::printf("case %s\n", id.c_str());
@@ -520,7 +565,7 @@ int main()
             for (auto& o : b.obs) if (!isDump(o)) Bf.push_back(o);
             size_t i = 0;
             while (i < Af.size() && i < Bf.size() && Af[i] == Bf[i]) ++i;
-            if (i == Af.size() && i == Bf.size()) std::printf("v k=%d ok\n", k);
+            if (i == Af.size() && i == Bf.size()) std::printf("v k=%d %s ok\n", k, b.lastStats.c_str());
             else std::printf("v k=%d DIFF obs=%zu A=[%s] B=[%s]\n", k, i, i < Af.size() ? Af[i].c_str() : "<none>", i < Bf.size() ? Bf[i].c_str() : "<none>");
             std::fflush(stdout);
         }
